@@ -196,7 +196,12 @@ class Gen:
                 self.emit("let %s = [%s];" % (v, ", ".join(self.num(2) for _ in range(self.r.randint(0, 4)))))
                 self.declare(v, "list")
         elif r < 0.30:
-            self.emit("print(%s);" % self.expr())
+            if self.r.random() < 0.1:
+                # a launch whose callee runs to completion inside the instruction (native / class without init): no fiber is
+                # created and nothing may stay on the stack (D61)
+                self.emit(self.r.choice(["launch print(%s);" % self.expr(), "launch Object();", "launch [%s].len();" % self.num()]))
+            else:
+                self.emit("print(%s);" % self.expr())
         elif r < 0.36:
             vs = self.vars("num")
             ls = self.vars("list")
